@@ -108,7 +108,12 @@ impl<'a> SpannedDiagnosticFormatter<'a> {
         let mut out = String::new();
         let (start_byte, end_byte) = self.nlc().span_line_bytes(span);
         // Produce an underline underneath a span which may cover multiple lines, and a message on the last line.
-        let mut source_lines = self.src[start_byte..end_byte].lines().peekable();
+        let source_text = &self.src[start_byte..end_byte];
+        // `lines()` yields nothing for an empty line: that line and the message must still be printed.
+        let mut source_lines = source_text
+            .lines()
+            .chain(source_text.is_empty().then_some(""))
+            .peekable();
         while let Some(source_line) = source_lines.next() {
             let (line_start_byte, _) = self.nlc().span_line_bytes(span);
             let span_offset_from_start = span.start() - line_start_byte;
@@ -665,6 +670,24 @@ mod test {
 1| 🦀🦞🦀🦞
      ^^  ^^ Not crabs"
         );
+    }
+
+    #[test]
+    fn underline_empty_line() {
+        // An empty span on an empty line, e.g. at the end of a file that ends in a newline.
+        let s = "%start A\n";
+        let test_path = PathBuf::from("test");
+        let formatter = SpannedDiagnosticFormatter::new(s, &test_path);
+        let out = formatter.underline_span_with_text(
+            Span::new(s.len(), s.len()),
+            "File ends prematurely".to_string(),
+            '^',
+        );
+        assert_eq!(out, "2| \n   ^ File ends prematurely");
+        let s = "a\n\nb";
+        let formatter = SpannedDiagnosticFormatter::new(s, &test_path);
+        let out = formatter.underline_span_with_text(Span::new(2, 2), "Here".to_string(), '^');
+        assert_eq!(out, "2| \n   ^ Here");
     }
 
     #[test]
